@@ -1,6 +1,7 @@
 (* C17 — Ordinal suffixes are judged correctly for every number.
    This file pins the statements; it contains nothing but `exact` (+ non-vacuity Examples by vm_compute). *)
 Require Import Base Overlap Suggestion Tables_number Number NumberArith NumberLex NumberPasses NumberProofs.
+Require Import C17Tails C17TailsProofs C17Multi.
 From Coq Require Import String.
 From Coq Require Import List NArith Bool.
 Import ListNotations.
@@ -233,6 +234,89 @@ Check C17_ctx_needed :
                                             mkmlint (mkspan 5 7) [ReplaceWith (txt "nd")]])
   /\ lint_ascii (txt "1.2st") = Ok None.
 Print Assumptions C17_ctx_needed.
+
+(* ================================================================================================
+   The URL / e-mail tails (Model/C17Tails.v: lex_ip_schemepart behind "//", lex_email_address behind the `@`
+   search, line by line from lexing/url.rs and email_address.rs; tied by the correspondence on texts with
+   `@` / `://`).  lint_full = lint_text with these tails: the main theorem holds for it (it holds for every ut, et),
+   and the texts that used to be outside the model are decided by it.
+   ================================================================================================ *)
+Theorem C17_lint_iff_full :
+  forall (U : uni) (pp : text -> list token -> list token),
+  ascii_laws U -> numbers_preserved pp ->
+  forall (n : N) (a b : N) (sx : suffix) (pre post : text),
+  (n < two53)%N -> from_chars [a; b] = Some sx ->
+  ctx_ok U pre (render n) [a; b] post = true ->
+  exists ls, lint_full U pp (pre ++ render n ++ [a; b] ++ post) = Ok (Some ls)
+    /\ (ls = [] <-> sx = ordinal n)
+    /\ (sx <> ordinal n ->
+        ls = [mkmlint (mkspan (length pre + length (render n)) (length pre + length (render n) + 2))
+                      [ReplaceWith (to_chars (ordinal n))]]).
+Proof. exact lint_iff_full_thm. Qed.
+Check C17_lint_iff_full :
+  forall (U : uni) (pp : text -> list token -> list token),
+  ascii_laws U -> numbers_preserved pp ->
+  forall (n : N) (a b : N) (sx : suffix) (pre post : text),
+  (n < two53)%N -> from_chars [a; b] = Some sx ->
+  ctx_ok U pre (render n) [a; b] post = true ->
+  exists ls, lint_full U pp (pre ++ render n ++ [a; b] ++ post) = Ok (Some ls)
+    /\ (ls = [] <-> sx = ordinal n)
+    /\ (sx <> ordinal n ->
+        ls = [mkmlint (mkspan (length pre + length (render n)) (length pre + length (render n) + 2))
+                      [ReplaceWith (to_chars (ordinal n))]]).
+Print Assumptions C17_lint_iff_full.
+
+(* the `@` and `://` clauses of ctx_ok cannot be dropped (by design of the lexer, not findings): `2st@x.com` is the
+   number 2 + the e-mail address `st@x.com`, `1th://` is the number 1 + the URL `th://` -> no lint; inside a local
+   part or a URL path the ordinal is swallowed; the lex_hostport quirk (`http://a.b:80/p` = Url `http://` + Hostname
+   `a.b` + ...); next to a URL / an address ordinals are judged as usual.  Raw tokens: (start, end, (kind, arg)),
+   kind 0 Number, 1 Word, 5 Punctuation, 8 Url, 9 EmailAddress, 10 Hostname. *)
+Theorem C17_url_email_needed :
+  run_lex_full ascii_uni (txt "2st@x.com") = Some [(0, 1, (0, 0)); (1, 9, (9, 0))]
+  /\ lint_ascii_full (txt "2st@x.com") = Ok (Some [])
+  /\ ctx_ok ascii_uni [] (render 2) (txt "st") (txt "@x.com") = false
+  /\ run_lex_full ascii_uni (txt "1th://") = Some [(0, 1, (0, 0)); (1, 6, (8, 0))]
+  /\ lint_ascii_full (txt "1th://") = Ok (Some [])
+  /\ ctx_ok ascii_uni [] (render 1) (txt "th") (txt "://") = false
+  /\ lint_ascii_full (txt "mail me at a.2st@x.com now") = Ok (Some [])
+  /\ lint_ascii_full (txt "see http://x.com/2st ok") = Ok (Some [])
+  /\ run_lex_full ascii_uni (txt "http://a.b:80/p") = Some [(0, 7, (8, 0)); (7, 10, (10, 0)); (10, 11, (5, 0)); (11, 13, (0, 0)); (13, 14, (5, 0)); (14, 15, (1, 0))]
+  /\ lint_ascii_full (txt "x 2st http://a.b/p%20q 3th")
+     = Ok (Some [mkmlint (mkspan 3 5) [ReplaceWith (txt "nd")]; mkmlint (mkspan 24 26) [ReplaceWith (txt "rd")]])
+  /\ lint_ascii_full (txt "write u@x.org the 2st time") = Ok (Some [mkmlint (mkspan 19 21) [ReplaceWith (txt "nd")]]).
+Proof. exact tails_witnesses. Qed.
+Check C17_url_email_needed :
+  run_lex_full ascii_uni (txt "2st@x.com") = Some [(0, 1, (0, 0)); (1, 9, (9, 0))]
+  /\ lint_ascii_full (txt "2st@x.com") = Ok (Some [])
+  /\ ctx_ok ascii_uni [] (render 2) (txt "st") (txt "@x.com") = false
+  /\ run_lex_full ascii_uni (txt "1th://") = Some [(0, 1, (0, 0)); (1, 6, (8, 0))]
+  /\ lint_ascii_full (txt "1th://") = Ok (Some [])
+  /\ ctx_ok ascii_uni [] (render 1) (txt "th") (txt "://") = false
+  /\ lint_ascii_full (txt "mail me at a.2st@x.com now") = Ok (Some [])
+  /\ lint_ascii_full (txt "see http://x.com/2st ok") = Ok (Some [])
+  /\ run_lex_full ascii_uni (txt "http://a.b:80/p") = Some [(0, 7, (8, 0)); (7, 10, (10, 0)); (10, 11, (5, 0)); (11, 13, (0, 0)); (13, 14, (5, 0)); (14, 15, (1, 0))]
+  /\ lint_ascii_full (txt "x 2st http://a.b/p%20q 3th")
+     = Ok (Some [mkmlint (mkspan 3 5) [ReplaceWith (txt "nd")]; mkmlint (mkspan 24 26) [ReplaceWith (txt "rd")]])
+  /\ lint_ascii_full (txt "write u@x.org the 2st time") = Ok (Some [mkmlint (mkspan 19 21) [ReplaceWith (txt "nd")]]).
+Print Assumptions C17_url_email_needed.
+
+(* Several numbers in one document, RULE LEVEL (partial: the text-level list form of C17_lint_iff still needs a
+   lexer shape lemma for several instances): on ANY token list whose suffixed Number tokens carry known values the
+   rule's output is the concatenation, in document order, of one independent verdict per token (`judge`: exactly one
+   lint on the last two characters when the suffix is wrong, nothing otherwise) — one lint per wrong number. *)
+Theorem C17_rule_per_number_partial :
+  forall l : list token, known_values l ->
+  rule l = Some (flat_map judge l) /\ (forall t, length (judge t) <= 1).
+Proof. exact (fun l H => conj (rule_per_number l H) judge_length). Qed.
+Check C17_rule_per_number_partial :
+  forall l : list token, known_values l ->
+  rule l = Some (flat_map judge l) /\ (forall t, length (judge t) <= 1).
+Print Assumptions C17_rule_per_number_partial.
+Example C17_ex_multi :
+  lint_ascii (txt "3th 2st, 11th and 113rd") =
+    Ok (Some [mkmlint (mkspan 1 3) [ReplaceWith (txt "rd")]; mkmlint (mkspan 5 7) [ReplaceWith (txt "nd")];
+              mkmlint (mkspan 21 23) [ReplaceWith (txt "th")]]).
+Proof. exact multi_example. Qed.
 
 Example C17_ex_ordinals :
   map ordinal [0; 1; 2; 3; 4; 11; 12; 13; 21; 22; 23; 101; 111; 112; 113; 1011; 9007199254740991]%N
